@@ -168,6 +168,7 @@ def run(idx: Index, rep: Report, tier: str) -> None:
             construct=f"def {m.name}(self)",
             detail="" if live else f"`{m.name}` is a near-miss of __post_init__ and nothing calls it: the problem/map-back consistency check never runs and plan_back_conversion stays None for every action-mapping compiler",
             function=m.qualname,
+            strict=True,  # the rule is about this very function having no caller: its being new is the point
         )
     for c, m, called in hooks:
         if c is not cr:
